@@ -114,3 +114,12 @@ Definition ok_status (s : status) : bool :=
 
 Definition verdict (tests : list (N * status)) : bool :=
   forallb (fun t => existsb (fun t' => N.eqb (fst t') (fst t) && ok_status (snd t')) tests) tests.
+
+(* ---- results_from_previous_jobs: the results of ALL replayed jobs, in order; a job without a readable results file
+        or without a "tests" list is an error (None) ---- *)
+Fixpoint previous_results {A} (jobs : list (option (list A))) : option (list A) :=
+  match jobs with
+  | [] => Some []
+  | None :: _ => None
+  | Some l :: r => match previous_results r with Some t => Some (l ++ t) | None => None end
+  end.
